@@ -891,6 +891,12 @@ class FnLower:
         for t in r.targs:
             if t[0] == 'pack':
                 return len(AST._targ_print(t))
+        # partial specialisation X<..., TL_<Ts...>>: the pack is the argument list of the one type-list argument
+        from cxxast import split_targs
+        lists = [t[1] for t in r.targs if t[0] == 'type' and re.match(r'^ffsm2::detail::TL_<.*>$', t[1])]
+        if len(lists) == 1:
+            inner = lists[0][len('ffsm2::detail::TL_<'):-1]
+            return len(split_targs(inner)) if inner.strip() else 0
         return None
 
     def cname_of_decl(self, d):
